@@ -81,12 +81,39 @@ var c09ListingB = []string{
 	"catch(findall(X, r(X,X), L), error(E, _), true)",
 }
 
+// family C: a predicate of arity 0 (its facts are equal atoms: duplicates can only be told apart by
+// position) and the SAME term instance asserted several times through a variable
+const c09HelpC = " twice(C) :- assertz(C), assertz(C). thrice(C) :- assertz(C), assertz(C), assertz(C). hist(C) :- assertz(C), assertz(C), (retract(C), once(retract(C)), assertz(C), fail ; true)."
+
+var c09InitsC = []string{
+	":- dynamic(f/0). :- dynamic(p/1)." + c09HelpC,
+	":- dynamic(f/0). :- dynamic(p/1). f. f." + c09HelpC,
+	":- dynamic(f/0). :- dynamic(p/1). f. f :- p(1). f. p(1). p(1)." + c09HelpC,
+}
+
+var c09OpsC = []string{
+	"assertz(f)", "asserta(f)", "assertz((f :- p(1)))", "retract(f)", "once(retract(f))", "findall(x, retract(f), L)", "findall(B, retract((f :- B)), L)",
+	"(retract(f), once(retract(f)), assertz(f), fail ; true)",
+	"findall(x, (retract(f), assertz(f)), L)", "findall(x, (f, once(retract(f))), L)", "findall(x, (retract(f), asserta(f), once(retract(f))), L)",
+	"C = p(1), assertz(C), assertz(C)", "twice(p(2))", "thrice(p(1))", "thrice(f)", "hist(p(1))", "hist(f)", "hist(p(_))",
+	"(retract(p(X)), once(retract(p(X))), assertz(p(X)), fail ; true)",
+	"G = p(1), (retract(G), once(retract(G)), assertz(G), fail ; true)",
+	"G = p(1), assertz(G), (retract(G), once(retract(G)), assertz(G), fail ; true)",
+	"once(retract(p(1)))", "retractall(f)", "abolish(f/0)", "findall(X, p(X), L)", "findall(x, f, L)",
+}
+
+var c09ListingC = []string{
+	"catch(findall(B, clause(f, B), L), error(E, _), true)",
+	"catch(findall(X-B, clause(p(X), B), L), error(E, _), true)",
+	"catch(findall(x, f, L), error(E, _), true)",
+}
+
 type c09Family struct {
 	name            string
 	inits, ops, lst []string
 }
 
-var c09Fams = []c09Family{{"A", c09Inits, c09Ops, c09Listing}, {"B", c09InitsB, c09OpsB, c09ListingB}}
+var c09Fams = []c09Family{{"A", c09Inits, c09Ops, c09Listing}, {"B", c09InitsB, c09OpsB, c09ListingB}, {"C", c09InitsC, c09OpsC, c09ListingC}}
 
 func c09Case(f *c09Family, init int, hist []int) *h.ProgCase {
 	pc := &h.ProgCase{Budget: 5000, Steps: []h.ProgStep{h.Consult(rdAll(f.inits[init])...)}}
@@ -189,7 +216,7 @@ func verdictOf(res []h.StepResult, first int, inconc bool) string {
 func init() {
 	h.Register(&h.Check{
 		ID: "C09",
-		Rule: "explicit-state BFS over database histories: 6 initial states of two dynamic predicates p/1, q/1 (empty, single, several, duplicates, clause with a variable, facts mixed with a rule) x an alphabet of 42 operations (asserta/assertz incl. bindings made before/after, retract first/all/by pattern, retractall, abolish, calls, and updates issued inside an open call, an open clause/2 and an open retract/1, each run to exhaustion under findall so that what the open goal saw is recorded); all histories up to depth U without merging, then merged by key (model database state, last operation) up to depth D. Non-trivial/distinct = distinct (model state, last op).",
+		Rule: "explicit-state BFS over database histories: 6 initial states of two dynamic predicates p/1, q/1 (empty, single, several, duplicates, clause with a variable, facts mixed with a rule) x an alphabet of 42 operations (asserta/assertz incl. bindings made before/after, retract first/all/by pattern, retractall, abolish, calls, and updates issued inside an open call, an open clause/2 and an open retract/1, each run to exhaustion under findall so that what the open goal saw is recorded); the same for family B (a binary predicate r/2: non-linear and aliased patterns) and family C (a predicate of arity 0, whose duplicate facts are equal atoms, and one term instance asserted several times through a variable, 26 operations); all histories up to depth U without merging, then merged by key (model database state, last operation) up to depth D. Non-trivial/distinct = distinct (model state, last op).",
 		Explanation: "state = contents and order of p/1 and q/1 in the reference model; transition = one operation executed on the REAL interpreter (the history is replayed on a fresh instance) and on the reference with generation-free logical update view (call-time snapshots); after every transition the operation's answers/error and the full listing of both predicates (clause/2) plus the answers of p(X) are compared",
 		Assumptions: []string{"reference: ISO 7.5.4 logical update view - a call, clause/2 and retract/1 enumerate the snapshot taken when they were called; retract succeeds once per matching snapshot clause (ISO 8.9.3.4 example) and removes it if still present", "abolish/retractall of a procedure that does not exist are not stated by the property and end the branch as inconclusive"},
 		Work:        c09Work,
